@@ -67,6 +67,12 @@ Theorem C02_backward_is_non_increasing : forall (ops : list bop) (b b1 b2 : zbuf
 Proof. exact run_then_reverse. Qed.
 Print Assumptions C02_backward_is_non_increasing.
 
+(* the same as one operation sequence: any guarded sequence, then sync, then the final reverse *)
+Theorem C02_backward_pipeline : forall (ops : list bop) (b b2 : zbuf),
+  Mono b -> guarded2 b (ops ++ [OSync]) -> run b (ops ++ [OSync; OReverse]) = Ok (Some b2) -> AMono b2.
+Proof. exact run_sync_reverse. Qed.
+Print Assumptions C02_backward_pipeline.
+
 Theorem C02_sort_keeps_monotone : forall cmp b s e b',
   Mono b -> Lvl01 b -> out_mode b = false -> sort cmp b s e = Ok b' -> Mono b'.
 Proof. exact sort_mono. Qed.
